@@ -86,6 +86,10 @@ $(B)/bin/conn_exec: $(B)/harness/conn_exec.o $(SHIM_OBJ) $(LIB_OBJ)
 	@mkdir -p $(dir $@)
 	@$(CC) $(SAN) -o $@ $^ $(WRAP) $(LDLIBS_REAL)
 
+$(B)/bin/est_exec: $(B)/harness/est_exec.o $(SHIM_OBJ) $(LIB_OBJ)
+	@mkdir -p $(dir $@)
+	@$(CC) $(SAN) -o $@ $^ $(WRAP) $(LDLIBS_REAL)
+
 $(B)/bin/addr_exec: $(B)/harness/addr_exec.o $(LIB_OBJ)
 	@mkdir -p $(dir $@)
 	@$(CC) $(SAN) -o $@ $^ $(LDLIBS_REAL)
@@ -98,9 +102,22 @@ $(B)/bin/attr_exec: $(B)/harness/attr_exec.o $(SHIM_OBJ) $(LIB_OBJ)
 	@mkdir -p $(dir $@)
 	@$(CC) $(SAN) -o $@ $^ $(WRAP) $(LDLIBS_REAL)
 
-$(B)/bin/tconn_exec: $(B)/harness/tconn_exec.o $(SHIM_OBJ) $(CARES_STUB_OBJ) $(LIB_OBJ)
+# tconn_exec: own shim (connect redirection, virtual clock, wait watch) instead of shim.o,
+# scripted resolver instead of -lcares
+TCONN_WRAP_SYMS := socket connect bind close poll ppoll select epoll_wait nanosleep usleep sleep \
+                   clock_gettime timerfd_create timerfd_settime
+TCONN_WRAP := $(foreach s,$(TCONN_WRAP_SYMS),-Wl,--wrap=$(s))
+# xcm_dns_cares.c evaluates c-ares' ARES_GETSOCK_WRITABLE(mask, 15) = 1 << 31 on every update (benign, inside the
+# system header's macro); with -fno-sanitize-recover a runtime suppression cannot apply, so this harness - the only
+# one that resolves names - links its own copy of that one object without the shift-base check
+$(B)/tconn/xcm_dns_cares.o: $(REPO)/libxcm/tp/dns/xcm_dns_cares.c
 	@mkdir -p $(dir $@)
-	@$(CC) $(SAN) -o $@ $^ $(WRAP) $(LDLIBS_STUB)
+	@$(CC) $(CFLAGS) -fno-sanitize=shift-base -c $< -o $@
+-include $(wildcard $(B)/tconn/*.d)
+TCONN_LIB_OBJ := $(filter-out %/xcm_dns_cares.o,$(LIB_OBJ)) $(B)/tconn/xcm_dns_cares.o
+$(B)/bin/tconn_exec: $(B)/harness/tconn_exec.o $(B)/shim/shim_tconn.o $(CARES_STUB_OBJ) $(TCONN_LIB_OBJ)
+	@mkdir -p $(dir $@)
+	@$(CC) $(SAN) -o $@ $^ $(TCONN_WRAP) $(LDLIBS_STUB)
 
 # C08: own shim (shim/shim_life.c) with its own interposition list; shim.o is not linked
 LIFE_WRAP := $(foreach s,send recv connect accept4 socket close bind listen epoll_create1 epoll_ctl eventfd \
